@@ -237,8 +237,11 @@ def failed_props(ob):
 
 def is_missing_model(ob):
     fp = failed_props(ob)
+    # 'model: ...' assertions are the instruction models' own statements of what they do NOT model (an immediate, a rounding
+    # argument): reaching one says the model is incomplete for this code, never that the code is wrong
     return any('no body' in (p.get('desc') or '') or (p.get('name') or '').endswith('no-body')
-               or 'undefined function should be unreachable' in (p.get('desc') or '') for p in fp)
+               or 'undefined function should be unreachable' in (p.get('desc') or '')
+               or (p.get('desc') or '').startswith('model:') for p in fp)
 
 
 def check_property(prop, tier, configs=None, only=None, keep=False, write_evidence=True):
@@ -350,6 +353,8 @@ def check_property(prop, tier, configs=None, only=None, keep=False, write_eviden
         residual = []
         new_viol = []
         n_replayed = 0
+        n_confirmed_exec = 0
+        deferred = []
         for ob in violations:
             hit = replay.match_known(ob, known)
             if not hit:
@@ -414,6 +419,12 @@ def check_property(prop, tier, configs=None, only=None, keep=False, write_eviden
             if rp['status'] == 'not-reproduced':
                 undecided.append((ob, 'counterexample did not replay on the real code (model/emitter defect?): ' + rp['path']))
                 continue
+            if rp['status'] == 'not-executed':
+                # beyond the replay cap: classified after the loop, by what the executed replays of this run showed
+                deferred.append((ob, rp))
+                continue
+            if rp['status'] == 'confirmed':
+                n_confirmed_exec += 1
             if rp['status'] != 'confirmed' and (any(dd.endswith('_UF') for dd in ob.defines) or getattr(ob.contract, 'gm', False) or getattr(ob.contract, 'modulo_lemma', None)):
                 # code-level (routing) contracts pin the SHAPE of the computation; without a real failing input a failure only
                 # says that the code no longer has that shape, which a correct rewrite would cause as well: undecided
@@ -421,6 +432,13 @@ def check_property(prop, tier, configs=None, only=None, keep=False, write_eviden
                 continue
             viol_lines.append('VIOLATION property=%s replay=%s%s' % (prop, rp['path'], '' if rp['status'] == 'confirmed' else ' no-failing-input-found'))
             print('  failed: %s  [%s]  %s' % (ob.ident(), ','.join(ob.cfgs), '; '.join((p.get('desc') or '')[:100] for p in failed_props(ob)[:3])))
+        for ob, rp in deferred:
+            if n_confirmed_exec:
+                # recorded with its counterexample, not re-executed: reported without claiming a failing input
+                viol_lines.append('VIOLATION property=%s replay=%s no-failing-input-found' % (prop, rp['path']))
+                print('  failed (counterexample recorded, not replayed -- cap): %s  [%s]  %s' % (ob.ident(), ','.join(ob.cfgs), '; '.join((p.get('desc') or '')[:100] for p in failed_props(ob)[:3])))
+            else:
+                undecided.append((ob, 'counterexample recorded but not replayed (cap of %d replays per run) and none of the replayed counterexamples of this run was confirmed on the real code: %s' % (MAX_REPLAYS, rp['path'])))
         seen_k = set()
         for ob, hit in known_hits:
             if hit['id'] in seen_k:
@@ -496,7 +514,7 @@ def check_lemmas(prop, tier):
     return ok
 
 
-MAX_REPLAYS = int(os.environ.get('VERIF_MAX_REPLAYS', '12'))   # further violations of the same run are recorded with their counterexample but not re-executed
+MAX_REPLAYS = int(os.environ.get('VERIF_MAX_REPLAYS', '24'))   # further violations of the same run are recorded with their counterexample but not re-executed
 
 PROPS_NA = {'C19': 'compile/link matrix facts are not expressible as function contracts'}
 
